@@ -3,6 +3,7 @@ package harness
 import (
 	"fmt"
 	"os"
+	"strings"
 	"testing"
 	"time"
 
@@ -97,4 +98,34 @@ func TestDbgNextMsg(t *testing.T) {
 	big := make([]byte, 1000)
 	n, err = srv.Conn.Read(big)
 	fmt.Printf("second connection: read %d bytes err=%v first bytes %x (stale remainder would be %x)\n", n, err, big[:min(n, 8)], msg[10:18])
+}
+
+// TestDbgC11 runs one C11 sequence (VERIF_DBG="op,op,...", VERIF_DBG_SEED).
+func TestDbgC11(t *testing.T) {
+	ops := os.Getenv("VERIF_DBG")
+	if ops == "" || os.Getenv("VERIF_DBG_KIND") != "c11" {
+		t.Skip()
+	}
+	seed := 207
+	fmt.Sscan(os.Getenv("VERIF_DBG_SEED"), &seed)
+	lines, viols, info := c11Run(strings.Split(ops, ","), seed)
+	fmt.Println("lines:", lines)
+	fmt.Println("info:", info)
+	for _, v := range viols {
+		fmt.Println("VIOL:", v.Signature, v.What)
+	}
+}
+
+func TestDbgHs(t *testing.T) {
+	if os.Getenv("VERIF_DBG_KIND") != "hs" {
+		t.Skip()
+	}
+	sc := &HsScenario{N: 3, Stale: [2][]string{{"0107"}, nil}, Retry: true}
+	res := RunHs(t, sc)
+	fmt.Printf("delivered=%v lastN=%v cli=%q/%d srv=%q/%d attempts=%v panic=%q\n", res.Delivered, res.LastN, res.CliErr, res.CliN, res.SrvErr, res.SrvN, res.Attempts, res.Panic)
+	for _, e := range res.Events {
+		if e.Kind == "hs-start" || e.Kind == "hs-ret" || (e.Kind == "deliver" && len(e.Pkt) > 0 && (e.Pkt[0] == 1 || e.Pkt[0] == 6)) {
+			fmt.Printf("%10v ep%d %-8s %x %s n=%d\n", e.At, e.EP, e.Kind, e.Pkt, e.Err, e.Msg)
+		}
+	}
 }
